@@ -690,3 +690,59 @@ def run_intern(prog, tier, repo):
                               f'text again yields a second, different handle (and two module references for one path)')
     res.floor('live slot overwrites', n2, 2)
     return [res]
+
+
+# ---------------------------------------------------------------------------------------------------------------------
+# UNMARKED-SET-DISCIPLINE (C17, C11): the set of modules still to be marked is the sweeper's gate: sweeping may start only
+# when it is empty *because every module was handed out and marked*. The set may therefore only grow by `insert` and shrink
+# by removing the one element that is handed out; any bulk operation (drain, clear, retain, mem::take, reassignment) empties
+# it without the modules having been marked, the gate opens early and live strings are reclaimed.
+
+def run_unmarked_set(prog, tier, repo):
+    res = RuleResult('UNMARKED-SET-DISCIPLINE', 'C17: the pending-module set that gates the sweeper only grows by insert and shrinks by '
+                     'removing the single module that is handed out for marking')
+    anchors = _anchors(prog, res)
+    if anchors is None:
+        return [res]
+    heap = anchors[0]
+    setf = _unmarked_set_field(heap)
+    if setf is None:
+        res.cannot_decide('the pending-module set of the heap')
+        return [res]
+    ALLOWED_MUT = {'insert': 'adds a pending module', 'remove': 'removes the module handed out', 'take': 'removes the module handed out'}
+    n = 0
+    for b in prog.bodies.values():
+        if b.crate != 'samlang_heap' or '::tests' in b.name:
+            continue
+        for bi, bl in enumerate(b.blocks):
+            if bl.cleanup:
+                continue
+            for st in bl.stmts:
+                if st[0] == 'a' and st[1].proj:
+                    r, pp = root_local(b, st[1].local)
+                    names = field_names(tuple(pp) + tuple(e for e in st[1].proj if e[0] in ('f', 't', 'v')))
+                    if names and names[-1] == setf and st[1].proj[-1][0] == 'f':
+                        n += 1
+                        res.violation(f'set-write:{b.name}', b.loc(st[3]), f'{b.name} assigns the pending-module set as a whole: modules '
+                                      f'that were waiting to be marked are forgotten and the sweeper\'s gate opens early')
+            t = bl.term
+            if t[0] != 'call' or not t[3] or t[3][0][0] not in ('c', 'm'):
+                continue
+            r, pp = operand_root(b, t[3][0])
+            names = field_names(pp)
+            if not (names and names[-1] == setf):
+                continue
+            ty = b.locals[t[3][0][1].local]
+            if not (ty.k == 'ref' and ty.extra == 1):
+                continue        # shared access (iter, is_empty, contains, len)
+            short = (callee(t)[1] or '').split('::')[-1]
+            n += 1
+            key = f'set-mut:{b.name}:{short}'
+            if short in ALLOWED_MUT:
+                res.ok(key, b.loc(t[7]), ALLOWED_MUT[short])
+            else:
+                res.violation(key, b.loc(t[7]), f'{b.name} calls `{short}` on the pending-module set: that removes modules that were never '
+                              f'handed out for marking (dropping a `drain()` iterator empties the whole set), so the sweeper runs while '
+                              f'marking is incomplete and reclaims strings that are still referenced')
+    res.floor('mutations of the pending-module set', n, 2)
+    return [res]
